@@ -54,3 +54,42 @@ Section Pipeline.
   Definition p_decode (verify : string -> string -> string -> bool) (role_of : string -> role) (tok : string) : option accepted :=
     decode b64dec p_parse_header p_parse_ident p_unmarshal_ok p_issuer_of verify role_of tok.
 End Pipeline.
+
+(* ---------- executable cross-check of the DEFINED oracles ---------- *)
+(* (payload tree; what json.Unmarshal into the real identifier gave: None = error, Some (top type, nats type, nats version);
+    the "iss" a {iss string} read gave ("" on error); the kind and version the loaders dispatch on and whether
+    json.Unmarshal into that kind's real target type succeeded) *)
+Definition pcase_ok (c : json * option (string * string * Z) * string * option (ckind * Z * bool)) : bool :=
+  let '(tree, ident, iss, unm) := c in
+  let jp := fun _ : string => Some tree in
+  match p_parse_ident jp "", ident with
+  | Some i, Some (t, nt, nv) => (id_top_type i =? t)%string && (id_nats_type i =? nt)%string && (id_nats_version i =? nv)
+  | None, None => true
+  | _, _ => false
+  end &&
+  (p_issuer_of jp "" =? iss)%string &&
+  match unm with
+  | Some (k, v, b) => Bool.eqb (p_unmarshal_ok jp "" k v) b
+  | None => true
+  end.
+(* (header tree; what json.Unmarshal into the real Header gave) *)
+Definition hcase_ok (c : json * option (string * string)) : bool :=
+  let '(tree, h) := c in
+  match p_parse_header (fun _ : string => Some tree) "", h with
+  | Some (t, a), Some (t', a') => (t =? t')%string && (a =? a')%string
+  | None, None => true
+  | _, _ => false
+  end.
+(* the same on the rich payloads that the real Encode writes: (kind, payload tree, the issuer Encode stamped) *)
+Definition prich_ok (c : ckind * json * string) : bool :=
+  let '(k, tree, iss) := c in
+  let jp := fun _ : string => Some tree in
+  match p_parse_ident jp "" with
+  | Some i => (id_top_type i =? "")%string &&
+              match k with
+              | KGeneric => true
+              | _ => (id_nats_type i =? kind_name k)%string && (id_nats_version i =? 2)
+              end
+  | None => match k with KGeneric => true | _ => false end     (* K4: free-form data may defeat the probe *)
+  end &&
+  (p_issuer_of jp "" =? iss)%string && p_unmarshal_ok jp "" k 2.
